@@ -4,7 +4,7 @@ package main
 // value internal/cli hands to the image writer, in which order BuildLayer resets the repositories and serialises,
 // how the layer file is named and created, when the owner-recording installer is used, how MergeInto copies accounts,
 // how publish picks the document to attach.  The end-to-end suites find the failing inputs; these source-text ties
-// make a change of the plumbing visible even where a suite would need luck.  Generated/Glue.lean.
+// make a change of the plumbing visible even where a suite would need luck.  Generated/GlueLayer.lean.
 
 import (
 	"go/ast"
@@ -46,7 +46,7 @@ func gluelayerProblem(props []string, format string, a ...any) {
 }
 
 func genGluelayer() {
-	l := newLean("Glue")
+	l := newLean("GlueLayer")
 
 	// --- internal/cli/build.go: what buildImageComponents hands to oci.BuildImageFromLayers ---
 	if f := load("internal/cli/build.go"); f != nil {
